@@ -21,6 +21,7 @@ RULE = (
     "after delete, KeyError on a missing key with no side effect, an exception for a non-mapping target) and the invariant that the rebuilt text read "
     "back as data equals the model exactly - no more and no fewer bindings, no duplicate definitions. Non-trivial = a history with >=1 step that touches "
     "an attrpath-derived or nested binding."
+    ' Further rules: the CLI helper `set` on the same object (accepted edits must be visible through the mappings, refused ones change nothing), dotted-key lookups (`m["a.b"]`: existing, through a scalar, missing tail); documents without any expression; around every failing lookup the rebuilt text must not change.'
 )
 ASSUMPTIONS = ["values are restricted to ints, strings, booleans, lists and dicts so that text and model are comparable as data"]
 
